@@ -23,7 +23,8 @@ ASSUMPTIONS = [
 ]
 
 STATES = ["unpinned", "pinned-same", "pinned-different", "unparsable", "unparsable-pinned", "changed-after-success",
-          "pinned-twin", "pinned-different-expired", "pinned-other-port", "pinned-long-ago", "pinned-then-failed-import", "pinned-during-handshake", "pinned-different-after-failed-handshake"]
+          "pinned-twin", "pinned-different-expired", "pinned-other-port", "pinned-long-ago", "pinned-then-failed-import", "pinned-during-handshake", "pinned-different-after-failed-handshake",
+          "pinned-by-import-uppercase"]
 HOSTS = ["target", "target", "0:0:0:0:0:0:0:1", "target."]
 OPS = ["get", "get-query", "upload", "delete"]
 
@@ -88,7 +89,7 @@ def run_case(case: dict):
         case["dbfault"] = None    # the pin written by the other party must really be there
     state = case["state"]
     presented = {"unpinned": "ec-a", "pinned-same": "ec-a", "pinned-different": "ec-b", "pinned-twin": "twin-b", "pinned-different-expired": "ec-expired", "pinned-other-port": "ec-b", "pinned-long-ago": "ec-b", "pinned-then-failed-import": "ec-b", "pinned-during-handshake": "ec-b",
-                 "pinned-different-after-failed-handshake": "ec-b",
+                 "pinned-different-after-failed-handshake": "ec-b", "pinned-by-import-uppercase": "ec-b",
                  "unparsable": "hostile-bool", "unparsable-pinned": "hostile-v4", "changed-after-success": "ec-b"}[state]
     T = case.get("host") or "target"  # the spelling of the target host in URLs, pins and redirects
     TA = f"[{T}]" if ":" in T else T
@@ -119,6 +120,21 @@ def run_case(case: dict):
         if state in ("pinned-same", "pinned-different", "unparsable-pinned", "pinned-different-expired", "pinned-other-port",
                      "pinned-long-ago", "pinned-then-failed-import", "pinned-different-after-failed-handshake"):
             db.trust(T, 1965, x509.load_der_x509_certificate(certs.get("ec-a").der))
+        if state == "pinned-by-import-uppercase":
+            # the pin of the genuine certificate came from a backup whose fingerprints are written in capitals
+            # (`SHA256:AB12...`), which the import accepts
+            bk = Path(d) / "backup.toml"
+            fp_up = certs.get("ec-a").fingerprint.upper()
+            bk.write_text(f'[_metadata]\nversion = "1.0"\n\n[hosts."{T}:1965"]\nhostname = "{T}"\nport = 1965\nfingerprint = "{fp_up}"\n'
+                          'first_seen = "2020-01-01T00:00:00+00:00"\nlast_seen = "2021-01-01T00:00:00+00:00"\n')
+            try:
+                db.import_toml(bk, merge=True)
+                imported = any(h["hostname"] == T and h["port"] == 1965 for h in db.list_hosts())
+            except Exception:
+                imported = False
+            if not imported:
+                # a store that refuses such a file: pin in the ordinary way, the situation is then 'pinned-different'
+                db.trust(T, 1965, x509.load_der_x509_certificate(certs.get("ec-a").der))
         if state == "pinned-twin":
             # the pinned certificate and the presented one share issuer name and serial number (both are chosen by
             # whoever makes a self-signed certificate) but not the key
@@ -218,7 +234,8 @@ def run_case(case: dict):
 
         shutil.rmtree(d, ignore_errors=True)
     should_fail = state in ("pinned-different", "unparsable", "unparsable-pinned", "changed-after-success", "pinned-twin", "pinned-different-expired", "pinned-other-port", "pinned-long-ago",
-                           "pinned-then-failed-import", "pinned-during-handshake", "pinned-different-after-failed-handshake")
+                           "pinned-then-failed-import", "pinned-during-handshake", "pinned-different-after-failed-handshake",
+                           "pinned-by-import-uppercase")
     if case.get("dbfault") and not should_fail:
         # the matching pin could not be (fully) consulted/updated: the call may fail or succeed; nothing to require here
         # beyond 'nothing before verification started', which was checked above
